@@ -186,6 +186,11 @@ class RunStateBinding(Binding):
             t = self.tagref(expr.func.value, f)
             if t in TAGVARS:
                 return TAGVARS[t]
+        if isinstance(expr, ast.Attribute) and expr.attr == "value":
+            # the real value of a system tag (the engine's own bookkeeping reads it directly, not the simulation mask)
+            t = self.tagref(expr.value, f)
+            if t in TAGVARS:
+                return TAGVARS[t]
         if isinstance(expr, ast.Name):
             if f.name == "_validate_control_command" and len(f.node.args.args) > 1 and expr.id == f.node.args.args[1].arg:
                 return "cmd"
